@@ -481,7 +481,14 @@ def run(ctx):
     name_hash_iterates_bytes(ctx, mpq, "C02")
 
     # tail rule
-    for path in ("builder::ArchiveBuilder::encrypt_data", "archive::decrypt_file_data", "tables::common::decrypt_table_data"):
+    # (the byte-level wrappers are discovered: every non-test function that hands bytes to the word cipher after converting them itself —
+    # it builds u32 words with from_le_bytes and calls encrypt_block / decrypt_block — wherever a refactoring has put it)
+    wrappers_ = sorted(p_[len(M):] for p_, f_ in fns.items() if f_.hir and "::tests::" not in p_ and "::modification::" not in p_ and "::crypto::" not in p_
+                       and any(re.search(r"::(encrypt_block|decrypt_block)$", c_.get("fn") or "") for c_ in hirq.calls(f_.hir["body"]))
+                       and any(re.search(r"from_le_bytes$", c_.get("fn") or "") for c_ in hirq.calls(f_.hir["body"]))
+                       and any(p2_.get("ty", "") for p2_ in [{}]) is not None
+                       and re.search(r"(encrypt|decrypt)\w*_data$", p_))
+    for path in wrappers_:
         f = fns.get(M + path)
         if f is None:
             ctx.bad(R_tail, "%s|missing" % path, "-", "wrapper not found", "anchor gone")
